@@ -15,7 +15,7 @@ from .c03 import BEATS_REF
 from .resultrun import ResultInterp, Tagged, build_edge_case_handler, metric_objs, reducer_verdict, obj_attr
 
 INFO = {
-    "explanation": "(R02.1) evaluate_matched_instance is run abstractly on four matched instances with scores {0.9, 0.5, 0.1, 0.0} for every decision metric in {none, increasing, decreasing} x threshold {0.0, 0.5}: tp equals the number of instances that pass the decision, every list holds exactly those instances' values, counts and arrays are passed on uncrossed, starmap binds (reference, prediction, label, metrics); (R02.2) the calculators fp, fn, rq, pq, pq_dsc, pq_cldsc are evaluated over exact rational functions of (tp, n_pred, n_ref, sq_m) and compared with n_pred-tp, n_ref-tp, tp/(tp+fp/2+fn/2), sq_m*rq on every branch; (R02.3) the metric registry built by running PanopticaResult.__init__ abstractly maps every name to the calculator of that name and sq_<m>/sq_<m>_std/pq_<m> to AVG/STD of metric <m>; (R02.4) Evaluation_List_Metric reducers are mean/population-std/sum/min/max of the whole list; (R02.5) instance counts default to the unique non-zero labels of the array of the same side and matched instances are the labels present on both sides. Delegated: relabelling keeps the prediction partition (R04.x: fresh labels collide with nothing, containers fit) and the approximator reports the component counts of the right side (R05.3), because tp+fp / tp+fn are taken against those counts. Delegated: the final result receives the pair's own instance counts (pipeline wiring R01.2). Further delegated: R10.2/R10.3 (no matched instance is cut off by a crop), R15.1/R15.8 (caller's arrays unchanged between groups and calls), R03.3 (threshold comparison), R09.6 (label enumeration). Round 6: R02.1 is also run with the function's reporting switches on; R15.3 (constructors do not modify container arguments) is delegated: the per-instance score dicts are read again after records are built from them. Round 7: the per-instance worker is discovered from what evaluate_matched_instance hands to the pool (or a verified map helper) and its result shape (dict by metric / sequence in metric order) is read off its abstract run; R02.1 judges every input class (path) and includes a threshold that no instance passes; regions of the pair's arrays handed to the workers must be the same region of both arrays. Round 8: R05.2 (the component count handed on is the library's own, on every named class of input - also an array without a single background voxel) is delegated next to R05.1/R05.3.",
+    "explanation": "(R02.1) evaluate_matched_instance is run abstractly on four matched instances with scores {0.9, 0.5, 0.1, 0.0} for every decision metric in {none, increasing, decreasing} x threshold {0.0, 0.5}: tp equals the number of instances that pass the decision, every list holds exactly those instances' values, counts and arrays are passed on uncrossed, starmap binds (reference, prediction, label, metrics); (R02.2) the calculators fp, fn, rq, pq, pq_dsc, pq_cldsc are evaluated over exact rational functions of (tp, n_pred, n_ref, sq_m) and compared with n_pred-tp, n_ref-tp, tp/(tp+fp/2+fn/2), sq_m*rq on every branch; (R02.3) the metric registry built by running PanopticaResult.__init__ abstractly maps every name to the calculator of that name and sq_<m>/sq_<m>_std/pq_<m> to AVG/STD of metric <m>; (R02.4) Evaluation_List_Metric reducers are mean/population-std/sum/min/max of the whole list; (R02.5) instance counts default to the unique non-zero labels of the array of the same side and matched instances are the labels present on both sides. Delegated: relabelling keeps the prediction partition (R04.x: fresh labels collide with nothing, containers fit) and the approximator reports the component counts of the right side (R05.3), because tp+fp / tp+fn are taken against those counts. Delegated: the final result receives the pair's own instance counts (pipeline wiring R01.2). Further delegated: R10.2/R10.3 (no matched instance is cut off by a crop), R15.1/R15.8 (caller's arrays unchanged between groups and calls), R03.3 (threshold comparison), R09.6 (label enumeration). Round 6: R02.1 is also run with the function's reporting switches on; R15.3 (constructors do not modify container arguments) is delegated: the per-instance score dicts are read again after records are built from them. Round 7: the per-instance worker is discovered from what evaluate_matched_instance hands to the pool (or a verified map helper) and its result shape (dict by metric / sequence in metric order) is read off its abstract run; R02.1 judges every input class (path) and includes a threshold that no instance passes; regions of the pair's arrays handed to the workers must be the same region of both arrays. Round 8: R05.2 (the component count handed on is the library's own, on every named class of input - also an array without a single background voxel) is delegated next to R05.1/R05.3. Round 9: statistics a list-metric object computes on first use (__getattr__) are read through the class's own fallback; worker pools of concurrent.futures (Executor.map over several iterables, itertools.repeat) are read like multiprocessing pools.",
     "trusted_base": ["Python semantics of the modelled AST subset", "multiprocessing.Pool.starmap preserves order and binds tuple elements positionally", "np.average/np.std/np.sum/np.min/np.max as uninterpreted reducers"],
     "assumptions": [],
     "not_decided": ["floating-point rounding of the reducers", "[0,1] ranges and sq_dsc >= sq: consequences of the kernel identities of C06, argued not mechanised"],
